@@ -357,8 +357,19 @@ func (v *authorizer) LoadPolicies(authorizerPolicies []byte) error {
 
 func (v *authorizer) loadPoliciesV2(pbPolicies *pb.AuthorizerPolicies) error {
 	policySymbolTable := datalog.SymbolTable(pbPolicies.Symbols)
-	v.symbols = v.baseSymbols.Clone()
-	v.symbols.Extend(&policySymbolTable)
+	symbols := v.baseSymbols.Clone()
+	symbols.Extend(&policySymbolTable)
+
+	// the snapshot must hang together before anything of it is taken over: a symbol table that
+	// repeats an entry or restates a symbol the authorizer already has shifts every later index, and
+	// an index that no table resolves would take whatever meaning later symbols give it
+	if symbols.Len() != v.baseSymbols.Len()+len(pbPolicies.Symbols) {
+		return fmt.Errorf("verifier: load policies: %w", ErrSymbolTableOverlap)
+	}
+	if err := checkPoliciesSymbols(pbPolicies, symbols); err != nil {
+		return fmt.Errorf("verifier: load policies: %w", err)
+	}
+	v.symbols = symbols
 
 	for _, pbFact := range pbPolicies.Facts {
 		fact, err := protoFactToTokenFactV2(pbFact)
@@ -487,4 +498,43 @@ func (v *authorizer) SerializePolicies() ([]byte, error) {
 		Checks:   protoChecks,
 		Policies: protoPolicies,
 	})
+}
+
+// checkPoliciesSymbols verifies that every predicate name and string used by the facts, rules, checks
+// and policies of a snapshot denotes a symbol of the given table.
+func checkPoliciesSymbols(pbPolicies *pb.AuthorizerPolicies, symbols *datalog.SymbolTable) error {
+	content := &Block{facts: &datalog.FactSet{}}
+	for _, pbFact := range pbPolicies.Facts {
+		fact, err := protoFactToTokenFactV2(pbFact)
+		if err != nil {
+			return err
+		}
+		*content.facts = append(*content.facts, *fact)
+	}
+	for _, pbRule := range pbPolicies.Rules {
+		rule, err := protoRuleToTokenRuleV2(pbRule)
+		if err != nil {
+			return err
+		}
+		content.rules = append(content.rules, *rule)
+	}
+	for _, pbCheck := range pbPolicies.Checks {
+		check, err := protoCheckToTokenCheckV2(pbCheck)
+		if err != nil {
+			return err
+		}
+		content.checks = append(content.checks, *check)
+	}
+	for _, pbPolicy := range pbPolicies.Policies {
+		queries := make([]datalog.Rule, 0, len(pbPolicy.Queries))
+		for _, pbRule := range pbPolicy.Queries {
+			rule, err := protoRuleToTokenRuleV2(pbRule)
+			if err != nil {
+				return err
+			}
+			queries = append(queries, *rule)
+		}
+		content.checks = append(content.checks, datalog.Check{Queries: queries})
+	}
+	return content.checkSymbols(symbols)
 }
